@@ -145,3 +145,105 @@ theorem splitRhatSqEss_affine (chains : List (List α)) (a b : α) (ha : a ≠ 0
   · field_simp
 
 end MiniMcmcVerif.Stats
+
+namespace MiniMcmcVerif.Stats
+
+variable {α : Type} [Field α] [LinearOrder α] [IsStrictOrderedRing α]
+
+/-! ### chain permutation -/
+
+instance zipAddRightComm : RightCommutative (fun (acc a : List α) => List.zipWith (· + ·) acc a) := ⟨by
+  intro acc a b
+  apply List.ext_getElem
+  · simp only [List.length_zipWith]; omega
+  · intro i h1 h2
+    simp only [List.getElem_zipWith]
+    ring⟩
+
+/-- the chain-averaged autocovariance does not depend on the order of the chains -/
+theorem rhoOf_perm (acov : List α → List α) (d₁ d₂ : List (List α)) (h : d₁.Perm d₂) (w v : α)
+    (hhead : (d₁.headD []).length = (d₂.headD []).length) :
+    rhoOf acov d₁ w v = rhoOf acov d₂ w v := by
+  unfold rhoOf
+  rw [hhead, h.length_eq]
+  have := List.Perm.foldl_eq (f := fun (acc a : List α) => List.zipWith (· + ·) acc a) (h.map acov)
+    (List.replicate (d₂.headD []).length (0 : α))
+  rw [this]
+
+/-- **ESS is invariant under permutation of the (half-)chains** (all of one length). -/
+theorem essWith_chain_perm (acov : List α → List α) (d₁ d₂ : List (List α)) (h : d₁.Perm d₂) (w v : α) (n : Nat)
+    (hlen : ∀ r ∈ d₁, r.length = n) (hne : d₁ ≠ []) :
+    essWith acov d₁ w v = essWith acov d₂ w v := by
+  have hne2 : d₂ ≠ [] := by
+    intro e; subst e; exact hne (List.perm_nil.mp h)
+  have hh1 : (d₁.headD []).length = n := by
+    cases d₁ with
+    | nil => exact absurd rfl hne
+    | cons a t => simpa using hlen a (by simp)
+  have hh2 : (d₂.headD []).length = n := by
+    cases d₂ with
+    | nil => exact absurd rfl hne2
+    | cons a t => simpa using hlen a (h.mem_iff.mpr (by simp))
+  rw [essWith_eq, essWith_eq, rhoOf_perm acov d₁ d₂ h w v (by rw [hh1, hh2]), h.length_eq, hh1, hh2]
+
+/-! ### time reversal -/
+
+theorem centre_reverse (xs : List α) : centre xs.reverse = (centre xs).reverse := by
+  unfold centre
+  have : mean xs.reverse = mean xs := mean_perm (List.reverse_perm xs)
+  rw [this, List.map_reverse]
+
+theorem sum_reverse' (l : List α) : sum l.reverse = sum l := by
+  rw [sum_list, sum_list, List.sum_reverse]
+
+/-- the lag-`k` product sum of a sequence equals that of the reversed sequence -/
+theorem lagsum_reverse (c : List α) (lag : Nat) (hlag : lag ≤ c.length) :
+    sum (List.zipWith (· * ·) c.reverse (c.reverse.drop lag)) = sum (List.zipWith (· * ·) c (c.drop lag)) := by
+  -- both sides are sums over t < n - lag of c[t]·c[t+lag]
+  rw [zipWith_drop_eq, zipWith_drop_eq, List.length_reverse]
+  simp only [sum_list]
+  -- reindex t ↦ n - lag - 1 - t
+  have hperm : ((List.range (c.length - lag)).map fun t => c.reverse.getD t 0 * c.reverse.getD (t + lag) 0)
+      = ((List.range (c.length - lag)).map fun t => c.getD t 0 * c.getD (t + lag) 0).reverse := by
+    apply List.ext_getElem
+    · simp
+    · intro i h1 h2
+      simp only [List.length_map, List.length_range] at h1
+      simp only [List.getElem_map, List.getElem_range, List.getElem_reverse, List.length_map, List.length_range]
+      have e1 : c.reverse.getD i 0 = c.getD (c.length - 1 - i) 0 := by
+        simp only [List.getD_eq_getElem?_getD]
+        rw [List.getElem?_reverse (by omega)]
+      have e2 : c.reverse.getD (i + lag) 0 = c.getD (c.length - 1 - (i + lag)) 0 := by
+        simp only [List.getD_eq_getElem?_getD]
+        rw [List.getElem?_reverse (by omega)]
+      rw [e1, e2, mul_comm]
+      congr 2 <;> omega
+  rw [hperm, List.sum_reverse]
+
+/-- **the autocovariance of a time-reversed sequence is the same** -/
+theorem autocovBF_reverse (xs : List α) : autocovBF xs.reverse = autocovBF xs := by
+  unfold autocovBF
+  simp only [List.length_reverse, centre_reverse]
+  apply List.map_congr_left
+  intro lag hlag
+  have hl : lag < xs.length := List.mem_range.mp hlag
+  rw [lagsum_reverse (centre xs) lag (by simp [centre]; omega)]
+
+/-- **ESS is invariant under time reversal of every (half-)chain**, `W` and `var⁺` being unchanged (they are
+    permutation-invariant within a chain). -/
+theorem essWith_time_reversal (data : List (List α)) (w v : α) :
+    essWith autocovBF (data.map List.reverse) w v = essWith autocovBF data w v := by
+  have hhead : ((data.map List.reverse).headD []).length = (data.headD []).length := by
+    cases data with
+    | nil => rfl
+    | cons r t => simp
+  have hac : (data.map List.reverse).map autocovBF = data.map autocovBF := by
+    rw [List.map_map]
+    apply List.map_congr_left
+    intro r _
+    exact autocovBF_reverse r
+  rw [essWith_eq, essWith_eq]
+  unfold rhoOf
+  rw [hhead, hac, List.length_map]
+
+end MiniMcmcVerif.Stats
